@@ -136,6 +136,12 @@ func NewIVFPQIndex(dim int, distanceKind DistanceKind, nlist int, m int, nbits i
 	if nbits <= 0 || nbits > 16 {
 		return nil, fmt.Errorf("parameter Nbits must be in [1,16]")
 	}
+	// Codes are stored one byte per subspace ([]uint8), so a codebook can have
+	// at most 256 entries; a larger Nbits would silently truncate codeword
+	// indices and score vectors against the wrong codeword.
+	if nbits > 8 {
+		return nil, fmt.Errorf("parameter Nbits must be at most 8 (codes are stored as uint8)")
+	}
 
 	// Create distance calculator
 	distance, err := NewDistance(distanceKind)
